@@ -194,14 +194,16 @@ def normalize_l1(events):
         elif a == 'Set':
             out.append({'a': 'Set', 'n': n, 'k': e['k'], 'val': e['val'], 'rev': e['rev'], 'flag': e['flag'],
                         'nblk': e['nblk'], 'vh': e['vh'], 'res': e['res'], 'ver': int(e.get('ver', 0) or 0),
-                        'wrote': bool(e.get('wrote')), 'c': int(e.get('c', -1)), 'off': int(e.get('off', 0)), 'st': _st(e)})
+                        'wrote': bool(e.get('wrote')), 'c': int(e.get('c', -1)), 'off': int(e.get('off', 0)), 'st': _st(e),
+                        'ctab': e.get('ctab') or []})
         elif a == 'Get':
             r = _read(e)
             r.update({'a': 'Get', 'n': n, 'k': e['k'], 'c': int(e.get('c', -1)), 'off': int(e.get('off', 0)),
-                      'afteropen': reopened, 'aftergc': gced})
+                      'afteropen': reopened, 'aftergc': gced, 'ctab': e.get('ctab') or []})
             out.append(r)
         elif a == 'Incr':
-            out.append({'a': 'Incr', 'n': n, 'k': e['k'], 'd': e['d'], 'res': e['res'], 'vh': e['vh'], 'st': _st(e)})
+            out.append({'a': 'Incr', 'n': n, 'k': e['k'], 'd': e['d'], 'res': e['res'], 'vh': e['vh'], 'st': _st(e),
+                        'ctab': e.get('ctab') or [], 'afteropen': reopened, 'aftergc': gced})
         elif a in ('Flush', 'Close', 'HintDump'):
             out.append({'a': a, 'n': n, 'st': _st(e)})
         elif a == 'RotFlush':
